@@ -209,10 +209,26 @@ def py_decode(t, body):
 
 def expected_decoding(t, msgs):
     if t == "sse":
-        return "none" if not msgs else ",".join(f"-:{hx(m)}:-" for m in msgs)
+        # the SSE handler drops raw CR bytes (68b38e53); the decoded text must be the message minus raw CRs
+        # — and a JSON-equal value, which `json_equal_minus_cr` checks separately
+        return "none" if not msgs else ",".join("-:" + hx(m.replace(b"\r", b"")) + ":-" for m in msgs)
     if t == "hs-json":
         return enlist(msgs)
     return "ok " + enlist(msgs)
+
+
+def json_equal_minus_cr(m):
+    """removing raw CR bytes must not change the JSON value (None = the frame is not JSON we can parse)"""
+    if b"\r" not in m:
+        return True
+    try:
+        a = json.loads(m.decode("utf-8"))
+    except (ValueError, UnicodeDecodeError):
+        return None
+    try:
+        return json.loads(m.replace(b"\r", b"").decode("utf-8")) == a
+    except (ValueError, UnicodeDecodeError):
+        return False
 
 
 PREFIX = {"sse": "sse", "hs-json": "json", "hs-proto": "proto"}
@@ -302,6 +318,10 @@ def evaluate(ctx, binary, ops, record=True):
                        f"{t}: the client-side decoding of the response body is not the sequence of messages handed to the transport ({cause})",
                        {"transport": t, "cause": cause},
                        {"decoded": mparse[:2000], "handed": want[:2000], "offending_frames": [hx(m)[:400] for m in bad[:3]]})
+        elif t == "sse" and any(json_equal_minus_cr(m) is False for m in msgs):
+            verdict = ("property", "sse: the delivered event (message minus raw CR) is not JSON-equal to the message handed to the transport",
+                       {"transport": t, "cause": "CR-strip-changes-JSON"},
+                       {"offending_frames": [hx(m)[:400] for m in msgs if json_equal_minus_cr(m) is False][:3]})
         elif t != "hs-proto" and any(b"\n" in m for m in msgs):
             verdict = ("property", f"{t}: a frame handed to a JSON transport contains a raw LF (the JSON encoder was bypassed?)",
                        {"transport": t, "cause": "raw-LF-in-frame"}, {"offending_frames": [hx(m)[:400] for m in msgs if b"\n" in m][:3]})
@@ -386,7 +406,8 @@ def run(ctx):
                 "and varint boundary lengths for Protobuf; every scenario is non-trivial; distinct = distinct op line")
     ctx.assumptions = [
         "the centrifugal/protocol JSON encoder removes raw LF from embedded raw JSON (external module; asserted on every run: "
-        "no frame handed to a JSON transport contains 0x0A) — it does NOT remove raw CR, see finding C32-1",
+        "no frame handed to a JSON transport contains 0x0A); it does not remove raw CR — the SSE handler does since 68b38e53 "
+        "(former finding C32-1), and the check verifies the CR-free text is JSON-equal to the frame",
         "UTF-8 decoding of the event stream is the identity on the well-formed UTF-8 the JSON protocol produces",
         "messages handed to the transport are captured with Node.OnTransportWrite (the []byte given to Transport.Write/WriteMany)",
         "Protobuf message lengths are below 2^56 (8-byte varint scratch buffer of the encoder)",
